@@ -16,7 +16,7 @@ from vuniv import gen, intuniv, table, words
 PROPERTY = "C04"
 LEVEL = "exploration"
 RULE = (
-    "case = one real search (word universe: class x pack x database x schedule, or an integer universe "
+    "case = one real search (word universe: class x pack x database x schedule - 8 % with a verification strategy whose rules have a child, run without asking for a specification -, or an integer universe "
     "as strategies x database) run to its end; every ruledb.add call is judged (parent label, child "
     "labels, re-applied strategy, pack membership, stored key / inserted forest keys, explicit empty "
     "rules) and at the end the stored key set is compared with the log. non-trivial = >= 10 recorded "
